@@ -14,13 +14,22 @@ const STUB_COMMON: &[&str] = &[
     "hardware memory model: sequentially consistent at store-hook granularity",
 ];
 
+/// Run counts below are in units tuned on this machine: quick x10 keeps every quick check well
+/// under a minute on 16 cores, thorough x10 takes a few minutes per property.
+const QUICK_X: u64 = 10;
+const THOROUGH_X: u64 = 10;
+
 fn b(name: &'static str, f: fn(), quick: u64, thorough: u64) -> Batch {
-    Batch { name, f, quick, thorough, heavy: false, grid: 0 }
+    Batch { name, f, quick: quick * QUICK_X, thorough: thorough * THOROUGH_X, heavy: false, grid: 0 }
 }
 fn grid(name: &'static str, f: fn(), cells: u64, quick_rounds: u64, thorough_rounds: u64) -> Batch {
-    Batch { name, f, quick: cells * quick_rounds, thorough: cells * thorough_rounds, heavy: false, grid: cells }
+    Batch { name, f, quick: cells * quick_rounds * 3, thorough: cells * thorough_rounds * 3, heavy: false, grid: cells }
 }
 fn heavy(name: &'static str, f: fn(), quick: u64, thorough: u64) -> Batch {
+    Batch { name, f, quick: quick * 3, thorough: thorough * 3, heavy: true, grid: 0 }
+}
+/// Multi-GiB runs: counts are taken literally.
+fn heavy1(name: &'static str, f: fn(), quick: u64, thorough: u64) -> Batch {
     Batch { name, f, quick, thorough, heavy: true, grid: 0 }
 }
 
@@ -182,8 +191,8 @@ pub fn spec(id: &str) -> Option<Spec> {
                 b("honest", scen::c17::honest, 6000, 150_000),
                 b("garbage", scen::c17::garbage, 3000, 80_000),
                 b("dishonest", scen::c17::dishonest, 3000, 80_000),
-                heavy("wrap_tx", scen::c17::wrap_tx, 4, 32),
-                heavy("wrap_rx", scen::c17::wrap_rx, 4, 32),
+                heavy1("wrap_tx", scen::c17::wrap_tx, 4, 48),
+                heavy1("wrap_rx", scen::c17::wrap_rx, 4, 48),
             ],
             extras: vec![],
             assumptions: vec!["capacity 0 is excluded as meaningless", "wrap batches verify payloads by sampling 64 positions per packet (bulk mode)"],
